@@ -268,8 +268,12 @@ def urlize(
     if trim_url_limit is not None:
 
         def trim_url(x: str) -> str:
-            if len(x) > trim_url_limit:
-                return f"{x[:trim_url_limit]}..."
+            # x is already escaped. Count and cut the characters it
+            # stands for, not the ones of their character references.
+            unescaped = markupsafe.Markup(x).unescape()
+
+            if len(unescaped) > trim_url_limit:
+                return f"{markupsafe.escape(unescaped[:trim_url_limit])}..."
 
             return x
 
